@@ -1160,7 +1160,14 @@ func formatWith(w *WithClause, f *formatter) string {
 		if len(cte.Columns) > 0 {
 			s += "(" + strings.Join(cte.Columns, ", ") + ") "
 		}
-		s += f.kw("AS") + " ("
+		s += f.kw("AS") + " "
+		if cte.Materialized != nil {
+			if !*cte.Materialized {
+				s += f.kw("NOT") + " "
+			}
+			s += f.kw("MATERIALIZED") + " "
+		}
+		s += "("
 		if qs, ok := cte.Statement.(Formatter); ok {
 			s += qs.Format(nestedOpts(f.opts))
 		} else {
